@@ -176,6 +176,8 @@ def check(run):
                 ok, why = False, f"{label} is {ir.show_nl(t)[:120]}, not the loss value itself"
     else:
         ok, why = False, "no carried chain loss"
+    from .c06 import depends_on
+    depends_on(run, "C10")
     run.check(ok, "CHAIN", "raw-losses", sg.where(sg.L.line), sg.fq, f"chain losses: {why or 'as returned'}",
               f"the chain must difference the loss values as returned by the loss function: {why} (adding an offset before "
               f"differencing rounds small losses to the float grid of the offset)", "chain losses are the loss results themselves")
